@@ -1,4 +1,5 @@
 import EncodingRs.Lemmas.EncSide
+import EncodingRs.Thm.C09Enc
 /-!
 # C08, encoder side — conversion loops always make progress and terminate
 
@@ -21,7 +22,10 @@ says that no space request of an encoder exceeds `encMinCap`, and it is proved f
 * with replacement: the model loop terminates (`encRepl_terminates`: fuel `src.length + 2` is enough
   for every stop policy of the inner calls; `encRepl_fuel_irrelevant`), it makes at most
   `src.length + 1` inner calls (`encRepl_rounds_le`), and an `OutputFull` return with `cap ≥ 14`
-  consumed at least one unit or wrote at least one byte (`encRepl_outputFull_progress`).
+  consumed at least one unit or wrote at least one byte (`encRepl_outputFull_progress`) — in fact it
+  always wrote at least one byte (`encRepl_outputFull_wrote`);
+* the documented caller loop over the with-replacement API (`EReplLoop`): `repl_caller_loop_bound`,
+  again at most `9 * characters + chunks + 5` calls (uses `Thm.C09Enc.encRepl_sound`).
 -/
 namespace EncodingRs.Thm.C08Enc
 open EncodingRs EncodingRs.Model EncodingRs.Lemmas.EncCore EncodingRs.Lemmas.EncPotential
@@ -359,6 +363,146 @@ theorem encRepl_progress_all_encodings (v : Gen.Variant) (utf16 last : Bool) (ca
     (hadm : InnerAdmissible t.inner) (hres : t.res = .outputFull) :
     1 ≤ t.read ∨ 1 ≤ t.out.length :=
   encRepl_outputFull_progress _ (efamOfVariant_needsBounded v) _ utf16 last cap fuel s src budgets t hcap h hadm hres
+
+/-- a with-replacement call returns `InputEmpty` or `OutputFull` (also `Thm.C06Enc.encRepl_res`) -/
+theorem encRepl_result (E : EFam) (canAll : Bool) (utf16 last : Bool) (cap fuel : Nat) (s : E.σ)
+    (src : List Nat) (budgets : List Budget) (t : EReplRes E.σ)
+    (h : encRepl E canAll Gen.ncrExtra utf16 last cap fuel s src budgets = some t) :
+    t.res = .inputEmpty ∨ t.res = .outputFull := by
+  rcases encRepl_cases E canAll Gen.ncrExtra utf16 last cap fuel s src budgets t h with
+    ⟨_, ⟨_, _, ht⟩ | ⟨_, ht⟩⟩ | ⟨_, hgo⟩
+  · subst ht; exact Or.inl rfl
+  · subst ht; exact Or.inr rfl
+  · exact go_res E hgo
+
+/-! ## the caller loop over the with-replacement API -/
+
+theorem go_out_ge (E : EFam) {utf16 last : Bool} {src : List Nat} {eff : Nat} {s : E.σ}
+    {budgets : List Budget} {tr tw : Nat} {acc : List Nat} {had : Bool}
+    {inner : List (Nat × Nat × ERes × Nat)} {t : EReplRes E.σ}
+    (h : GoRel E utf16 last src eff s budgets tr tw acc had inner t) : acc.length ≤ t.out.length := by
+  induction h with
+  | stop s budgets tr tw acc had inner r hr hres => simp only [List.length_append]; omega
+  | unmapEnd s budgets tr tw acc had inner r c hr hres hfull hend => simp only [List.length_append]; omega
+  | unmapFull s budgets tr tw acc had inner r c hr hres hfull hend => simp only [List.length_append]; omega
+  | unmapCont s budgets tr tw acc had inner r c t hr hres hroom hnext ih =>
+    simp only [List.length_append] at ih; omega
+
+/-- with a destination of at least the minimum and admissible inner calls, a with-replacement call
+that returns `OutputFull` has written at least one byte (a byte of an inner call that filled the
+destination, or a numeric character reference) -/
+theorem encRepl_outputFull_wrote (E : EFam) (hb : ENeedsBounded E) (canAll : Bool) (utf16 last : Bool)
+    (cap fuel : Nat) (s : E.σ) (src : List Nat) (budgets : List Budget) (t : EReplRes E.σ)
+    (hcap : encMinCapRepl canAll ≤ cap)
+    (h : encRepl E canAll Gen.ncrExtra utf16 last cap fuel s src budgets = some t)
+    (hadm : InnerAdmissible t.inner) (hres : t.res = .outputFull) : 1 ≤ t.out.length := by
+  have heff : encMinCap ≤ (if canAll = true then cap else cap - Gen.ncrExtra) := by
+    unfold encMinCapRepl at hcap
+    cases canAll <;> simp only [if_true, Bool.false_eq_true, if_false] at hcap ⊢ <;> omega
+  rcases encRepl_cases E canAll Gen.ncrExtra utf16 last cap fuel s src budgets t h with
+    ⟨⟨hc1, hc2⟩, _⟩ | ⟨_, hgo⟩
+  · exfalso
+    unfold encMinCapRepl at hcap
+    rw [if_neg hc1] at hcap
+    omega
+  · generalize (if canAll = true then cap else cap - Gen.ncrExtra) = eff at hgo heff
+    cases hgo with
+    | stop _ _ _ _ _ _ _ r hr hres' =>
+      simp only at hres hadm ⊢
+      have h1 := (hadm (eff - 0, r.out.length, r.res, r.stopNeed) (by simp)).2 hres
+      have h2 : r.stopNeed ≤ encMinCap := by rw [hr]; exact ecall_stopNeed_le E encMinCap hb utf16 s _ last _
+      simp only [List.nil_append] at h1 ⊢
+      omega
+    | unmapEnd _ _ _ _ _ _ _ r c hr hres' hfull hend => cases hres
+    | unmapFull _ _ _ _ _ _ _ r c hr hres' hfull hend =>
+      have := ncr_length_pos c
+      simp only [List.length_append]
+      omega
+    | unmapCont _ _ _ _ _ _ _ r c _ hr hres' hroom hnext =>
+      have h1 := go_out_ge E hnext
+      have := ncr_length_pos c
+      simp only [List.length_append] at h1
+      omega
+
+/-- **The documented caller loop over `encode_from_utf{8,16}`** (with replacement): chunks in
+non-`last` calls, then `last` calls until `InputEmpty`; after `OutputFull` the unconsumed characters
+are pushed again.  Every call that does not return `InputEmpty` had a destination of at least
+`encMinCapRepl` bytes and admissible inner calls.  `EReplLoop E canAll s text n k`: `n` calls, `k` of
+them non-`last` calls that returned `InputEmpty`. -/
+inductive EReplLoop (E : EFam) (canAll : Bool) : E.σ → List Nat → Nat → Nat → Prop
+  | final (s : E.σ) (utf16 : Bool) (cap fuel : Nat) (src : List Nat) (budgets : List Budget) (t : EReplRes E.σ) :
+      encRepl E canAll Gen.ncrExtra utf16 true cap fuel s src budgets = some t → t.res = .inputEmpty →
+      EReplLoop E canAll s ((itemsOfSrc utf16 src).map Prod.fst) 1 0
+  | lastStep (s : E.σ) (utf16 : Bool) (cap fuel : Nat) (src : List Nat) (budgets : List Budget) (t : EReplRes E.σ)
+      (n k : Nat) :
+      encRepl E canAll Gen.ncrExtra utf16 true cap fuel s src budgets = some t → t.res ≠ .inputEmpty →
+      encMinCapRepl canAll ≤ cap → InnerAdmissible t.inner →
+      EReplLoop E canAll t.st ((itemsOfSrc utf16 (src.drop t.read)).map Prod.fst) n k →
+      EReplLoop E canAll s ((itemsOfSrc utf16 src).map Prod.fst) (n + 1) k
+  | chunkDone (s : E.σ) (utf16 : Bool) (cap fuel : Nat) (src : List Nat) (budgets : List Budget) (t : EReplRes E.σ)
+      (rest : List Nat) (n k : Nat) :
+      encRepl E canAll Gen.ncrExtra utf16 false cap fuel s src budgets = some t → t.res = .inputEmpty →
+      EReplLoop E canAll t.st ((itemsOfSrc utf16 (src.drop t.read)).map Prod.fst ++ rest) n k →
+      EReplLoop E canAll s ((itemsOfSrc utf16 src).map Prod.fst ++ rest) (n + 1) (k + 1)
+  | chunkStep (s : E.σ) (utf16 : Bool) (cap fuel : Nat) (src : List Nat) (budgets : List Budget) (t : EReplRes E.σ)
+      (rest : List Nat) (n k : Nat) :
+      encRepl E canAll Gen.ncrExtra utf16 false cap fuel s src budgets = some t → t.res ≠ .inputEmpty →
+      encMinCapRepl canAll ≤ cap → InnerAdmissible t.inner →
+      EReplLoop E canAll t.st ((itemsOfSrc utf16 (src.drop t.read)).map Prod.fst ++ rest) n k →
+      EReplLoop E canAll s ((itemsOfSrc utf16 src).map Prod.fst ++ rest) (n + 1) k
+
+/-- a with-replacement call that does not return `InputEmpty` contributes at least one event -/
+theorem repl_step_events (E : EFam) (L : ELaws E) (hb : ENeedsBounded E) (canAll utf16 last : Bool)
+    (cap fuel : Nat) (s : E.σ) (src : List Nat) (budgets : List Budget) (t : EReplRes E.σ) (rest : List Nat)
+    (hl : last = true → rest = [])
+    (h : encRepl E canAll Gen.ncrExtra utf16 last cap fuel s src budgets = some t) (hres : t.res ≠ .inputEmpty)
+    (hcap : encMinCapRepl canAll ≤ cap) (hadm : InnerAdmissible t.inner) :
+    (eref E t.st ((itemsOfSrc utf16 (src.drop t.read)).map Prod.fst ++ rest)).length + 1
+      ≤ (eref E s ((itemsOfSrc utf16 src).map Prod.fst ++ rest)).length := by
+  obtain ⟨evs, h1, _, h3⟩ := C09Enc.encRepl_sound E L canAll Gen.ncrExtra utf16 last cap fuel s src budgets t h rest hl
+  have hfull : t.res = .outputFull := by
+    rcases encRepl_result E canAll utf16 last cap fuel s src budgets t h with h' | h'
+    · exact absurd h' hres
+    · exact h'
+  have hw := encRepl_outputFull_wrote E hb canAll utf16 last cap fuel s src budgets t hcap h hadm hfull
+  have hne : 1 ≤ evs.length := by
+    cases evs with
+    | nil => rw [h1] at hw; simp [C09Enc.manualBytes] at hw
+    | cons x l => simp
+  rw [← h3, List.length_append]
+  omega
+
+/-- calls ≤ (bytes + unmappable reports of the reference run) + chunks + 1 -/
+theorem repl_calls_le_events (E : EFam) (L : ELaws E) (hb : ENeedsBounded E) (canAll : Bool) (s : E.σ)
+    (text : List Nat) (n k : Nat) (h : EReplLoop E canAll s text n k) : n ≤ (eref E s text).length + k + 1 := by
+  induction h with
+  | final s utf16 cap fuel src budgets t hrun hres => omega
+  | lastStep s utf16 cap fuel src budgets t n k hrun hres hcap hadm _ ih =>
+    have := repl_step_events E L hb canAll utf16 true cap fuel s src budgets t [] (fun _ => rfl) hrun hres hcap hadm
+    simp only [List.append_nil] at this
+    omega
+  | chunkDone s utf16 cap fuel src budgets t rest n k hrun hres _ ih =>
+    obtain ⟨evs, _, _, h3⟩ := C09Enc.encRepl_sound E L canAll Gen.ncrExtra utf16 false cap fuel s src budgets t hrun
+      rest (fun h => by cases h)
+    rw [← h3, List.length_append]
+    omega
+  | chunkStep s utf16 cap fuel src budgets t rest n k hrun hres hcap hadm _ ih =>
+    have := repl_step_events E L hb canAll utf16 false cap fuel s src budgets t rest (fun h => by cases h) hrun
+      hres hcap hadm
+    omega
+
+/-- **C08, linear bound for the with-replacement API, all 40 encodings**: the documented caller loop
+over `encode_from_utf{8,16}`, with destinations of at least 14 bytes (4 when the encoder can encode
+everything), makes at most `9 · characters + chunks + 5` calls -/
+theorem repl_caller_loop_bound (v : Gen.Variant) (s : (efamOfVariant v).σ) (text : List Nat) (n k : Nat)
+    (h : EReplLoop (efamOfVariant v) (canEncodeEverything v) s text n k) : n ≤ 9 * text.length + k + 5 := by
+  have hb := efamOfVariant_needsBounded v
+  have h1 := repl_calls_le_events _ (variant_elaws v) hb _ s text n k h
+  have h2 := eref_length_le (efamOfVariant v) 4 1
+    (fun s c => Nat.le_trans (Lemmas.EncFam.estep_out_le_need v s c) (hb.1 s c))
+    (variant_rank_le v)
+    (fun s => Nat.le_trans (Lemmas.EncFam.eeof_out_le_need v s) (hb.2 s)) text s
+  omega
 
 /-! ## Non-vacuity
 
